@@ -121,7 +121,7 @@ def execute(case):
         try:
             inter.add(cl.run())
         except Violation as v:
-            out.update(status="violation", oracle=v.oracle, message=v.message, env_index=i)
+            out.update(status="violation", oracle=v.oracle, message=v.message, env_index=i, tape=[list(x) for x in tape.log])
             return out
         a, b = op_multiset(ref.oplog), op_multiset(sub.oplog)
         if a != b:
